@@ -5,10 +5,10 @@ META = {
     "functions": ["fibre_scheduler_next", "fibre_run", "fibre_kill", "fibre_run_atomic", "fibre_timeout", "fibre_eventq_claim", "fibre_eventq_send", "fibre_eventq_receive",
                   "fibre_eventq_release", "handle_atomic_runq", "handle_timerq", "update_current_state", "get_next_wakeup", "messageq_*", "list_*"],
     "units": ["librfn/fibre.c, messageq.c, list.c, util.c - all included into the harness TU and compiled with the shim <stdatomic.h> (harness/shim)"],
-    "bounds": {"quick": "every placement of 1 interrupt handler (thorough: 2 and 3) (real fibre_run_atomic(f) for any of 3 fibres, or fibre_eventq_claim + write + fibre_eventq_send) "
+    "bounds": {"quick": "every placement of 1 interrupt handler (thorough: 2) (real fibre_run_atomic(f) for any of 3 fibres, or fibre_eventq_claim + write + fibre_eventq_send) "
                         "before any atomic operation the main context executes during 2 scheduler passes (+ an interruptible fibre_run between them, an optional "
                         "fibre_kill), then <= 4 passes with interrupts off until idle; event-handling, yielding (0..2 yields) and sleeping fibre; pass times symbolic",
-               "thorough": "2 handlers over 2 passes and 3 handlers over 3 passes, 5 drain passes"},
+               "thorough": "2 handlers over 2 passes"},
     "outside": ["handlers interrupting handlers: under run-to-completion semantics the main context only observes the request queue after all nested handlers finished, "
                 "which is exactly C04's interrupt-discipline result on the same messageq code (composition, stated as a premise)",
                 "free-running threads instead of interrupts (would need the scheduler itself as an IR step machine; not built)",
@@ -32,7 +32,7 @@ def q(name, nirq, npass, ndrain, role="prove", mutate=None, timeout=2400):
 def queries(tier, kf):
     qs = [q("c06-irq1-pass2", 1, 2, 4)]
     if tier == "thorough":
-        qs += [q("c06-irq2-pass2", 2, 2, 4, timeout=7200), q("c06-irq3-pass3", 3, 3, 5, timeout=10800)]
+        qs += [q("c06-irq2-pass2", 2, 2, 4, timeout=7200)]
     cans = [("request-not-published", "\t*queued_fibre = f;\n\tmessageq_send(&kernel.atomic_runq, queued_fibre);\n\treturn true;", "\t*queued_fibre = f;\n\treturn true;"),
             ("drain-drops-while-running", "\t\tmake_runnable(*f);\n\t\tmessageq_release", "\t\tif (!kernel.current || kernel.state != FIBRE_STATE_WAITING)\n\t\t\tmake_runnable(*f);\n\t\tmessageq_release")]
     for n, old, new in cans:
